@@ -151,6 +151,49 @@ def step (c : Ctx) (line : String) : Ctx × String :=
     match n.toNat?, ds.mapM String.toNat? with
     | some n, some ds => (c, ints (Ev.cubeY n ds))
     | _, _ => (c, "bad-op")
+  -- benchmark problems (tables travel with the command) ---------------------------------------
+  | "pb.hill" :: rest =>
+    match parseFs rest with
+    | some fs => if fs.length == 29 then
+        (c, hx (Prob.hill (fs.take 14) ((fs.drop 14).take 14) (fs.getD 28 0))) else (c, "bad-op")
+    | none => (c, "bad-op")
+  | "pb.shekel" :: rest =>
+    match parseFs rest with
+    | some fs => if fs.length == 31 then
+        (c, hx (Prob.shekel (fs.take 10) ((fs.drop 10).take 10) ((fs.drop 20).take 10) (fs.getD 30 0))) else (c, "bad-op")
+    | none => (c, "bad-op")
+  | "pb.shekel4" :: rows :: rest =>
+    match rows.toNat?, parseFs rest with
+    | some rows, some fs => if fs.length == 5 * rows + 4 then
+        let a := (List.range rows).map fun i => (fs.drop (4 * i)).take 4
+        let cc := (fs.drop (4 * rows)).take rows
+        (c, hx (Prob.shekel4 a cc (fs.drop (5 * rows)))) else (c, "bad-op")
+    | _, _ => (c, "bad-op")
+  | "pb.rastrigin" :: rest =>
+    match parseFs rest with
+    | some fs => (c, hx (Prob.rastrigin fs))
+    | none => (c, "bad-op")
+  | "pb.xsquared" :: rest =>
+    match parseFs rest with
+    | some fs => (c, hx (Prob.xsquared fs))
+    | none => (c, "bad-op")
+  | "pb.grishagin" :: rest =>
+    match parseFs rest with
+    | some fs => if fs.length == 4 * 49 + 2 then
+        let mat := fun (k : Nat) => (List.range 7).map fun i => ((fs.drop (49 * k + 7 * i)).take 7)
+        (c, hx (Prob.grishagin (mat 0) (mat 1) (mat 2) (mat 3) (fs.getD 196 0) (fs.getD 197 0))) else (c, "bad-op")
+    | none => (c, "bad-op")
+  | "pb.gkls" :: dim :: rest =>
+    match dim.toNat?, parseFs rest with
+    | some dim, some fs => if fs.length == 10 * dim + 20 + dim then
+        let lm := (List.range 10).map fun i => (fs.drop (dim * i)).take dim
+        let rho := (fs.drop (10 * dim)).take 10
+        let f := (fs.drop (10 * dim + 10)).take 10
+        let x := fs.drop (10 * dim + 20)
+        let k : Prob.GklsConsts F := { maxValue := 1e100, precision := 1e-10, domainLeft := -1.0, domainRight := 1.0,
+                                       three := 3.0, four := 4.0 }
+        (c, hx (Prob.gkls k { dim := dim, localMin := lm, rho := rho, f := f } x)) else (c, "bad-op")
+    | _, _ => (c, "bad-op")
   -- search data ---------------------------------------------------------------------------
   | ["sd.new", dual, maxlen] =>
     ({ c with sd := { dual := dual == "1", maxlen := maxlen.toNat? } }, "ok")
